@@ -57,7 +57,7 @@ from wikitextprocessor.common import MAGIC_FIRST
 from wikitextprocessor.parser import HTMLNode, _parser_pop
 
 COOKIE = chr(MAGIC_FIRST)
-ACH = "a " + COOKIE
+ACH = "a " + COOKIE + MAGIC_NOWIKI_CHAR  # both characters reach a quoted attribute value through the preprocessor
 
 
 def attrs_clean(v: str, table_row: bool) -> bool:
@@ -73,13 +73,13 @@ def attrs_clean(v: str, table_row: bool) -> bool:
     root.children.append(node)
     ctx.parser_stack = [root, node]
     _parser_pop(ctx, False)
-    return all(COOKIE not in x for x in node.attrs.values()) and ctx.parser_stack == [root]
+    return all(COOKIE not in x and MAGIC_NOWIKI_CHAR not in x for x in node.attrs.values()) and ctx.parser_stack == [root]
 
 
 def replay_attrs(v, table_row):
     w = Wtp(quiet=True, quiet_output=True)
     w.start_page("T")
-    val = v.replace(COOKIE, "{{foo}}")
+    val = v.replace(COOKIE, "{{foo}}").replace(MAGIC_NOWIKI_CHAR, "<nowiki />")
     doc = ("{|\n|- class=\"" + val + "\"\n| x\n|}") if table_row else ("<span class=\"" + val + "\">x</span>")
     root = w.parse(doc)
     bad = []
